@@ -333,7 +333,10 @@ package resolve
 //@ spec pathOK(p []string) bool = p == nil || len(p) >= 1
 
 // plan accessors (interface Node) and renderer hooks
+//@ spec nodeKind(n Node) NodeKind
+//@ spec nodeNullable(n Node) bool
 //@ func Node.NodeKind
+//@   ensures result == nodeKind(recv)
 //@   pure
 //@   trusted plan accessor
 //@ func Node.NodePath
@@ -341,6 +344,7 @@ package resolve
 //@   pure
 //@   trusted plan accessor; plan invariant: the value node of an object field is keyed by a non-empty path
 //@ func Node.NodeNullable
+//@   ensures result == nodeNullable(recv)
 //@   pure
 //@   trusted plan accessor
 //@ func CustomResolve.Resolve
@@ -453,7 +457,7 @@ package resolve
 //@   requires r != nil
 //@   assumes pathOK(fieldPath)
 //@   ensures {stack.restored} len(r.path) == old(len(r.path))
-//@   modifies *, count(errorAdded)
+//@   modifies r.path, elems(r.path), r.depth, r.errors, r.valueCompletion, global(jver), global(ext), count(errorAdded)
 
 //@ func Resolvable.walkNull
 //@   requires r != nil
@@ -472,6 +476,7 @@ package resolve
 //@   ensures {null.bubbles.iff.nonnull} isnull ==> (result <==> !nullable)
 //@   ensures {wrong.kind.rejected} !isnull && !kindok ==> result
 //@   ensures {right.kind.accepted} !isnull && kindok ==> !result
+//@   ensures {mode.unchanged} rendering(r) == old(rendering(r))
 //@   ensures {stack.restored} len(r.path) == old(len(r.path))
 //@   modifies *, count(*)
 
@@ -484,6 +489,7 @@ package resolve
 //@   ensures {null.bubbles.iff.nonnull} isnull ==> (result <==> !nullable)
 //@   ensures {wrong.kind.rejected} !isnull && !kindok ==> result
 //@   ensures {right.kind.accepted} !isnull && kindok ==> !result
+//@   ensures {mode.unchanged} rendering(r) == old(rendering(r))
 //@   ensures {stack.restored} len(r.path) == old(len(r.path))
 //@   modifies *, count(*)
 
@@ -498,6 +504,7 @@ package resolve
 //@   ensures {wrong.kind.rejected} !isnull && !kindok ==> result
 //@   ensures {right.kind.accepted} !isnull && kindok && integral ==> !result
 //@   ensures {non.integral.number.rejected} !isnull && kindok && !integral ==> result
+//@   ensures {mode.unchanged} rendering(r) == old(rendering(r))
 //@   ensures {stack.restored} len(r.path) == old(len(r.path))
 //@   modifies *, count(*)
 
@@ -512,6 +519,7 @@ package resolve
 //@   ensures {null.bubbles.iff.nonnull} isnull ==> (result <==> !nullable)
 //@   ensures {wrong.kind.rejected} !rend && !isnull && !kindok ==> result
 //@   ensures {right.kind.accepted} !isnull && kindok ==> !result
+//@   ensures {mode.unchanged} rendering(r) == old(rendering(r))
 //@   ensures {stack.restored} len(r.path) == old(len(r.path))
 //@   modifies *, count(*)
 
@@ -522,6 +530,7 @@ package resolve
 //@   let nullable = b.Nullable
 //@   ensures {null.bubbles.iff.nonnull} isnull ==> (result <==> !nullable)
 //@   ensures {any.value.accepted} !isnull ==> !result
+//@   ensures {mode.unchanged} rendering(r) == old(rendering(r))
 //@   ensures {stack.restored} len(r.path) == old(len(r.path))
 //@   modifies *, count(*)
 
@@ -532,6 +541,7 @@ package resolve
 //@   let nullable = s.Nullable
 //@   ensures {null.bubbles.iff.nonnull} isnull ==> (result <==> !nullable)
 //@   ensures {any.value.accepted} !isnull ==> !result
+//@   ensures {mode.unchanged} rendering(r) == old(rendering(r))
 //@   ensures {stack.restored} len(r.path) == old(len(r.path))
 //@   modifies *, count(*)
 
@@ -543,6 +553,7 @@ package resolve
 //@   let nullable = e.Nullable
 //@   ensures {null.bubbles.iff.nonnull} isnull ==> (result <==> !nullable)
 //@   ensures {wrong.kind.rejected} !isnull && !kindok ==> result
+//@   ensures {mode.unchanged} rendering(r) == old(rendering(r))
 //@   ensures {stack.restored} len(r.path) == old(len(r.path))
 //@   modifies *, count(*)
 
@@ -552,6 +563,7 @@ package resolve
 //@   let isnull = jnull(v)
 //@   let nullable = c.Nullable
 //@   ensures {null.bubbles.iff.nonnull} isnull ==> (result <==> !nullable)
+//@   ensures {mode.unchanged} rendering(r) == old(rendering(r))
 //@   ensures {stack.restored} len(r.path) == old(len(r.path))
 //@   modifies *, count(*)
 
@@ -575,24 +587,28 @@ package resolve
 
 //@ func Resolvable.walkNode
 //@   requires r != nil
+//@   ensures {mode.unchanged} rendering(r) == old(rendering(r))
 //@   ensures {stack.restored} len(r.path) == old(len(r.path))
 //@   modifies *, count(*)
 
 //@ func Resolvable.walkUnreachedItem
 //@   requires r != nil
+//@   ensures {mode.unchanged} rendering(r) == old(rendering(r))
 //@   ensures {stack.restored} len(r.path) == old(len(r.path))
 //@   modifies *, count(*)
 
 //@ func Resolvable.walkUnreachedFields
 //@   requires r != nil
+//@   ensures {mode.unchanged} rendering(r) == old(rendering(r))
 //@   ensures {stack.restored} len(r.path) == old(len(r.path))
 //@   modifies *, count(*)
 //@   loop 0:
-//@     invariant len(r.path) == old(len(r.path))
+//@     invariant len(r.path) == old(len(r.path)) && rendering(r) == old(rendering(r))
 
 //@ func Resolvable.emitUnreachedFieldDeny
 //@   requires r != nil
 //@   assumes r.authorization != nil
+//@   ensures {mode.unchanged} rendering(r) == old(rendering(r))
 //@   ensures {stack.restored} len(r.path) == old(len(r.path))
 //@   modifies *, count(*)
 
@@ -610,6 +626,7 @@ package resolve
 
 //@ func Resolvable.walkObject
 //@   requires r != nil
+//@   ensures {mode.unchanged} rendering(r) == old(rendering(r))
 //@   ensures {stack.restored} len(r.path) == old(len(r.path))
 //@   modifies *, count(*)
 //@   trusted (for now) 170-line function with deferred closures and defer-mode rendering; contract pending
@@ -620,18 +637,29 @@ package resolve
 //@   requires r != nil
 //@   assumes pathOK(arr.Path)
 //@   assumes r.options.EnableCostControl ==> r.typeNameStats != nil
-//@   ghost var g_itemNullable bool = false
-//@   ghost var g_itemIsContainer bool = false
-//@   at call Node.NodeNullable: ghost g_itemNullable = result
-//@   at call Node.NodeKind: ghost g_itemIsContainer = result == NodeKindObject || result == NodeKindArray
+//@   let rend = rendering(r)
 //@   at call SetNull: assert {array.nulled.only.if.nullable} arr.Nullable
-//@   at call SetArrayItem: assert {item.nulled.only.if.nullable.container} g_itemNullable && g_itemIsContainer
+//@   at call SetNull: assert {nearest.nullable.ancestor.first} !(nodeNullable(arr.Item) && (nodeKind(arr.Item) == NodeKindObject || nodeKind(arr.Item) == NodeKindArray))
+//@   at call SetArrayItem: assert {item.nulled.only.if.nullable.container} nodeNullable(arr.Item) && (nodeKind(arr.Item) == NodeKindObject || nodeKind(arr.Item) == NodeKindArray)
+//@   ghost var g_isArray bool = false
+//@   ghost var g_n int = 0 - 1
+//@   ghost var g_walks int = 0
+//@   ghost var g_listNulled bool = false
+//@   at call Value.Type: ghost g_isArray = g_isArray || (g_n < 0 && result == astjson.TypeArray)
+//@   at call Value.GetArray: ghost g_n = len(result)
+//@   at call walkNode: ghost g_walks = g_walks + 1
+//@   at call SetNull: ghost g_listNulled = true
+//@   ensures {prewalk.visits.every.item} !rend && !result && g_isArray && !g_listNulled ==> g_n >= 0 && g_walks == g_n
+//@   ensures {mode.unchanged} rendering(r) == old(rendering(r))
 //@   ensures {stack.restored} len(r.path) == old(len(r.path))
 //@   modifies *, count(*)
 //@   loop 0:
 //@     invariant len(r.path) == old(len(r.path)) + len(arr.Path)
+//@     invariant rendering(r) == rend && g_isArray && g_n == len(values) && !g_listNulled && g_walks == 0
 //@   loop 1:
 //@     invariant len(r.path) == old(len(r.path)) + len(arr.Path)
+//@     invariant rendering(r) == rend && g_isArray && g_n == len(values) && !g_listNulled
+//@     invariant !rend ==> g_walks == i
 
 //@ func Resolvable.walkFields
 //@   requires r != nil && obj != nil
@@ -646,10 +674,11 @@ package resolve
 //@   ensures {denied.field.nulled.or.bubbled} !result ==> !g_pendingDeny
 //@   at call walkNode: assert {denied.field.not.walked} !g_denied
 //@   at call printBytes: assert {denied.field.not.printed} !g_denied
+//@   ensures {mode.unchanged} rendering(r) == old(rendering(r))
 //@   ensures {stack.restored} len(r.path) == old(len(r.path))
 //@   modifies *, count(*)
 //@   loop 0:
-//@     invariant len(r.path) == old(len(r.path))
+//@     invariant len(r.path) == old(len(r.path)) && rendering(r) == old(rendering(r))
 //@     invariant {denied.field.handled.before.next.field} !g_pendingDeny
 
 //@ func Resolvable.authorizeField
@@ -668,6 +697,7 @@ package resolve
 
 //@ func Resolvable.recordFieldReached
 //@   requires r != nil
+//@   ensures {mode.unchanged} rendering(r) == old(rendering(r))
 //@   ensures {stack.restored} len(r.path) == old(len(r.path))
 //@   modifies *
 //@   trusted bookkeeping for the unreached-field authorization walk; does not touch the path stack
